@@ -87,6 +87,17 @@ CLAIMED["C04"] = dict(
     note="Trusted: rustc as the arbiter of outlives; the signature renderer; the JS/Dart edge-list parsers. 'static inputs are don't-care. The definition-site gap (known finding) is excluded by spelling all bounds and probed separately.",
     ref="DESIGN.md §2 C04")
 
+CLAIMED["C01"] = dict(
+    engine="P", technique="end-to-end differential property testing: generated bridge compiled by the real proc macro and called through the generated C headers with generated argument vectors (gcc, ASan+UBSan)",
+    text="Generated programs over the documented type grammar with generated call vectors; Rust bodies log arguments bit-exactly and return drawn values, a generated C driver calls through the generated headers. Every call must reach Rust exactly once with the drawn arguments and return exactly the drawn value (incl. Option/Result arm and raw is_ok byte, write-out strings, &mut slice mutation); struct/enum layouts and result sizes seen by C must equal those rustc gives the macro's output; primitive/pointer/view parameter types in prototypes must be the documented spellings. Exploration.",
+    note="Trusted: gcc 12, rustc, the canonical value serialisers on the three sides (Python expectation, Rust logger, C printer). x86-64 SysV only. Callbacks are not part of the round trip.",
+    ref="DESIGN.md §2 C01")
+CLAIMED["C10"] = dict(
+    engine="P", technique="metamorphic + end-to-end property testing of twin spellings (Option/DiplomatOption, Result/DiplomatResult, Self/named) through the generated C header",
+    text="Generated twin methods that differ only in spelling receive identical generated call vectors: their C declarations must be token-identical and both must behave identically when executed; the wire encoding is observed from C (raw is_ok byte 0/1 after the payload union, sizeof equal to the macro's type, NULL iff None for optional pointers, unit arms without payload). Exploration.",
+    note="Trusted: as C01. Both spellings are generated only for primitive, enum and struct payloads.",
+    ref="DESIGN.md §2 C10")
+
 TODO_REASON = "check not built yet in this revision of /verif (planned, see DESIGN.md §2); not claimed until it is silent on the unchanged tree and kills its mutants"
 
 ALL = ["C%02d" % i for i in range(1, 18)]
